@@ -106,6 +106,26 @@ def run(cfg, w):
             except Exception:
                 w.ob(f"ambiguous_item_rejected_on_write[{k}]", True)
             w.ob_arr_eq(f"unchanged_after_ambiguous_write[{k}]", x.values, X)
+        # one tuple naming an unknown item next to an item of two dimensions (the two errors must not cancel), in both orders,
+        # and with a third dimension in between
+        dc = Dimension(name="Gamma", letter="c", items=["u", "v"])
+        X3 = w.arr("x3", (2, 2, 2))
+        x3 = FlodymArray(dims=DimensionSet(dim_list=[da, dc, db]), values=X3.copy())
+        for arr_, V_, keys in ((x, X, [("q", "nope"), ("nope", "q"), ("nope", "p", "q"), ("q", "q")]),
+                               (x3, X3, [("q", "nope"), ("nope", "q"), ("u", "q", "nope"), ("nope", "u", "q"), ("q", "u", "q"), ("q", "nope", "nope2")])):
+            for k in keys:
+                tag = f"{arr_.dims.ndim}d:{k}"
+                try:
+                    arr_[k]
+                    w.ob(f"unknown_plus_shared_item_rejected[{tag}]", False)
+                except Exception:
+                    w.ob(f"unknown_plus_shared_item_rejected[{tag}]", True)
+                try:
+                    arr_[k] = 1.0
+                    w.ob(f"unknown_plus_shared_item_rejected_on_write[{tag}]", False)
+                except Exception:
+                    w.ob(f"unknown_plus_shared_item_rejected_on_write[{tag}]", True)
+                w.ob_arr_eq(f"unchanged_after_rejected_write[{tag}]", arr_.values, V_)
         r = x["p"]
         w.ob("unique_item_dims", r.dims.letters == ("b",))
         w.ob_arr_eq("unique_item", r.values, X[0])
